@@ -154,6 +154,13 @@ def int_binop(op, a, b, ty):
             if base == "Rem" and a.lo >= 0 and b.hi > 0:
                 lo, hi = 0, min(a.hi, b.hi - 1)
             return IntV(ty, None, lo, hi, None, deps)
+        if b.is_const() and b.lo > 0 and b.lo & (b.lo - 1) == 0 and a.lo >= 0 and a.bits is not None:
+            # non-negative value divided by / reduced modulo a power of two: a shift / a mask, bit for bit
+            k = b.lo.bit_length() - 1
+            if base == "Div":
+                return make_int(ty, a.bits[k:] + (0,) * k, a.lo >> k, a.hi >> k, None, deps)
+            bits = a.bits[:k] + (0,) * (w - k)
+            return make_int(ty, bits, 0, min(a.hi, b.lo - 1), None, deps)
         if base == "Div":
             c = [_tdiv(a.lo, b.lo), _tdiv(a.lo, b.hi), _tdiv(a.hi, b.lo), _tdiv(a.hi, b.hi)]
             if a.lo < 0 < a.hi:
@@ -214,6 +221,13 @@ def compare(op, a, b):
                 bit = nz[0] if op == "Ne" else bit_xor(nz[0], 1)
             elif b.lo == (1 << i):
                 bit = nz[0] if op == "Eq" else bit_xor(nz[0], 1)
+    if val is None and bit is None and a.term and a.term[0] == "lzbits" and b.is_const() and b.lo == 0 and op in ("Eq", "Ne", "Gt"):
+        # leading_zeros(x) == 0  <=>  the top bit of x is set
+        top = a.term[1]
+        if not bit_is_const(top) and top != TBIT:
+            bit = top if op == "Eq" else bit_xor(top, 1)
+        elif bit_is_const(top):
+            val = (top == 1) if op == "Eq" else (top == 0)
     return BoolV(val, ("cmp", op, a, b), deps, None, bit)
 
 
